@@ -321,6 +321,27 @@ let handle () =
          | "", [x] -> "(" ^ x ^ ",)" | "", _ -> "(" ^ String.concat "," a ^ ")"
          | nm, [] -> nm | nm, _ -> nm ^ "(" ^ String.concat "," a ^ ")") in
     (match create_symbol (tt ()) with Some y -> show y | None -> "raises")
+  | "wsym" ->
+    (* wsym <wterm> with wterm ::= n <int> | s <hex> | c <hex> | i | u | f <hex> <k> wterm.. | t <k> wterm.. | g wterm | b <0|1> wterm wterm :
+       a written ground term; prints  <create_symbol (in_body w)> | <eval (to_term (in_head w))>  (Model/Symbols.v) *)
+    let unhex h = String.init (String.length h / 2) (fun i -> Char.chr (int_of_string ("0x" ^ String.sub h (2 * i) 2))) in
+    let name () = match next () with "-" -> coq_string "" | h -> coq_string (unhex h) in
+    let rec wt () = match next () with
+      | "n" -> WNum (z_of_int (int ())) | "s" -> WStr (name ()) | "c" -> WConst (name ()) | "i" -> WInf | "u" -> WSup
+      | "f" -> let n = name () in WFun (n, list wt) | "t" -> WTup (list wt) | "g" -> WNeg (wt ()) | "b" -> let p = int () <> 0 in let l = wt () in let r = wt () in WBin (p, l, r)
+      | s -> failwith ("wterm " ^ s) in
+    let esc s = String.concat "" (List.map (fun c -> match c with '\\' -> "\\\\" | '"' -> "\\\"" | '\n' -> "\\n" | c -> String.make 1 c) (List.init (String.length s) (String.get s))) in
+    let rec show = function
+      | YNum z -> string_of_int (int_of_z z) | YStr x -> "\"" ^ esc (ocaml_string x) ^ "\"" | YInf -> "#inf" | YSup -> "#sup"
+      | YFun (n, args, pos) ->
+        let a = List.map show args in
+        (if pos then "" else "-") ^
+        (match ocaml_string n, a with
+         | "", [x] -> "(" ^ x ^ ",)" | "", _ -> "(" ^ String.concat "," a ^ ")"
+         | nm, [] -> nm | nm, _ -> nm ^ "(" ^ String.concat "," a ^ ")") in
+    let w = wt () in
+    (match create_symbol (in_body w) with Some y -> show y | None -> "raises") ^ " | " ^
+    (match to_term (in_head w) with None -> "raises" | Some a -> (match eval (fun _ -> YInf) a with Some y -> show y | None -> "undefined"))
   | "ivs" ->
     (* ivs <n> { <left> <right> } : Model/IntervalSet.of_list *)
     let xs = list (fun () -> let a = int () in let b = int () in (z_of_int a, z_of_int b)) in
